@@ -76,7 +76,14 @@ func init() {
 	for _, pid := range []string{"C01", "C02", "C05", "C06", "C08", "C09", "C10", "C19"} {
 		addRules(pid, "R-READAT-SPEC")
 	}
-	addRules("C01", "R-APPLY-ALL")
+	addRules("C01", "R-APPLY-ALL", "R-CODEC")
+	addRules("C05", "R-CODEC", "R-RECKEY")
+	addRules("C06", "R-CODEC", "R-RECKEY")
+	addRules("C07", "R-CODEC", "R-RECKEY")
+	addRules("C08", "R-CODEC")
+	addRules("C02", "R-EXPIRY")
+	addRules("C03", "R-EXPIRY")
+	addRules("C10", "R-SYNCIMPL")
 	addRules("C08", "R-HINTKEY", "R-INSERT-TOTAL")
 	addRules("C09", "R-INSERT-TOTAL")
 	addRules("C02", "R-HINTKEY")
